@@ -268,3 +268,110 @@ Proof.
   | _ => brk H; okinv2 H; fin
   end.
 Qed.
+
+(* ------------------------------------------------------------------ Part 4 *)
+(* the children loop written inside `render` is `render_list` *)
+Lemma render_unfold slug o c v sp ch st :
+  render slug o c (Node v sp ch) st =
+  (do r1 <- enter slug o c (Node v sp ch) st;
+   let '(e1, st1, m) := r1 in
+   do r2 <- match m with
+            | MPlain => Ok ([], st1)
+            | MHtml => render_list slug o v (c_parent c) ch 0 None st1
+            end;
+   let (e2, st2) := r2 in
+   do r3 <- exit_ o c (Node v sp ch) st2;
+   let (e3, st3) := r3 in
+   Ok (e1 ++ e2 ++ e3, st3)).
+Proof.
+  cbn [render].
+  destruct (enter slug o c (Node v sp ch) st) as [[[e1 st1] m]| |]; cbn [bind]; try reflexivity.
+  destruct m; [|reflexivity].
+  f_equal.
+  generalize 0, (@None node_value), st1. clear.
+  induction ch as [|x r IH]; intros i prev s; [reflexivity|].
+  cbn [render_list].
+  destruct (render slug o _ x s) as [[ex sx]| |]; cbn [bind]; try reflexivity.
+  rewrite IH. reflexivity.
+Qed.
+
+Section Traversal.
+  Variable slug : bytes -> bytes.
+  Variable o : opts.
+  Hypothesis U : o_unsafe o = false.
+  Hypothesis SL : forall h, forallb inert_byte (slug h) = true.
+
+  Definition render_safe_at (n : node) : Prop :=
+    s7 n = true -> s4 n = true ->
+    forall c st e st', render slug o c n st = Ok (e, st') -> forallb safe_ev e = true.
+
+  Lemma render_list_safe v pv : forall l,
+    Forall render_safe_at l -> forallb s7 l = true -> forallb s4 l = true ->
+    forall i prev s e s', render_list slug o v pv l i prev s = Ok (e, s') -> forallb safe_ev e = true.
+  Proof.
+    induction 1 as [|x r Hx _ IH]; intros H7 H4 i prev s e s' H; cbn [render_list] in H.
+    - injection H as <- <-. reflexivity.
+    - cbn [forallb] in H7, H4. apply andb_true_iff in H7, H4.
+      destruct H7 as [X7 R7], H4 as [X4 R4].
+      destruct (render slug o _ x s) as [[ex sx]| |] eqn:RX; cbn [bind] in H; try discriminate H.
+      destruct (render_list slug o v pv r _ _ sx) as [[er sr]| |] eqn:RR; cbn [bind] in H; try discriminate H.
+      injection H as <- <-. rewrite forallb_app.
+      rewrite (Hx X7 X4 _ _ _ _ RX), (IH R7 R4 _ _ _ _ _ RR). reflexivity.
+  Qed.
+
+  Lemma render_safe : forall n, render_safe_at n.
+  Proof.
+    induction n as [v sp ch IH] using node_ind2. intros H7 H4 c st e st' H.
+    destruct (s7_s4_node _ _ _ H7 H4) as (V & C7 & C4).
+    rewrite render_unfold in H.
+    destruct (enter slug o c (Node v sp ch) st) as [[[e1 st1] m]| |] eqn:EN; cbn [bind] in H; try discriminate H.
+    apply (enter_safe _ _ _ _ _ _ _ _ _ _ U SL V) in EN.
+    destruct m.
+    - destruct (render_list slug o v _ ch 0 None st1) as [[e2 st2]| |] eqn:RL; cbn [bind] in H; try discriminate H.
+      destruct (exit_ o c (Node v sp ch) st2) as [[e3 st3]| |] eqn:EX; cbn [bind] in H; try discriminate H.
+      injection H as <- <-. rewrite !forallb_app, EN.
+      rewrite (render_list_safe _ _ _ IH C7 C4 _ _ _ _ _ RL), (exit_safe _ _ _ _ _ _ _ _ U V EX). reflexivity.
+    - cbn [bind] in H.
+      destruct (exit_ o c (Node v sp ch) st1) as [[e3 st3]| |] eqn:EX; cbn [bind] in H; try discriminate H.
+      injection H as <- <-. rewrite !forallb_app, EN, (exit_safe _ _ _ _ _ _ _ _ U V EX). reflexivity.
+  Qed.
+
+  Lemma finish_safe st : forallb safe_ev (finish st) = true.
+  Proof. unfold finish. destruct (0 <? fn_ix st)%N; fin. Qed.
+
+  Lemma events_safe t evs :
+    s7 t = true -> s4 t = true -> events slug o t = Ok evs -> forallb safe_ev evs = true.
+  Proof.
+    intros H7 H4 H. unfold events in H.
+    destruct (render slug o root_ctx t _) as [[e st]| |] eqn:R; cbn [bind] in H; try discriminate H.
+    injection H as <-. rewrite forallb_app, (render_safe t H7 H4 _ _ _ _ R), finish_safe. reflexivity.
+  Qed.
+End Traversal.
+
+Lemma c02_events : forall slug o t evs,
+  o_unsafe o = false -> s7 t = true -> s4 t = true ->
+  (forall h, forallb inert_byte (slug h) = true) ->
+  events slug o t = Ok evs -> forallb safe_ev evs = true.
+Proof. intros slug o t evs U H7 H4 SL H. exact (events_safe slug o U SL t evs H7 H4 H). Qed.
+
+(* the statement without S4 is false: a heading of level 7 is written as the element h7 *)
+Definition no_s4_tree : node :=
+  Node Document (mkSp 1 1 1 1) [Node (Heading 7 false) (mkSp 1 1 1 1) []].
+Definition opts_default : opts :=
+  mkOpts false None false false false false false false false 0 false false 0 false false false
+         false false false 0 false false.
+
+Lemma c02_events_without_s4_refuted :
+  ~ (forall slug o t evs,
+       o_unsafe o = false -> s7 t = true ->
+       (forall h, forallb inert_byte (slug h) = true) ->
+       events slug o t = Ok evs -> forallb safe_ev evs = true).
+Proof.
+  intro H.
+  specialize (H (fun _ => []) opts_default no_s4_tree
+                [Cr; Open [x68; x37] []; Close [x68; x37]; Lit [x0a]]
+                eq_refl eq_refl (fun _ => eq_refl)).
+  assert (events (fun _ => []) opts_default no_s4_tree
+          = Ok [Cr; Open [x68; x37] []; Close [x68; x37]; Lit [x0a]]) as E by (vm_compute; reflexivity).
+  specialize (H E). vm_compute in H. discriminate H.
+Qed.
